@@ -192,6 +192,10 @@ def assigned_places(body, blocks):
         for s in b["s"]:
             if s["k"] == "assign":
                 out.append(s["p"])
+                r = s["r"]
+                # a mutable borrow taken inside the loop may be written through (by a callee or a deref store)
+                if (r.get("k") == "ref" and r.get("bk") == "mut") or (r.get("k") == "rawptr" and str(r.get("m", "")).startswith("Mut")):
+                    out.append(r["p"])
         t = b["t"]
         if t["k"] == "call":
             out.append(t["d"])
